@@ -289,7 +289,7 @@ def c11(tier):
                 elif cur is not None:
                     texts[cur] += line
             for variant in ("plain", "invalid-utf8-sibling", "directory-named-xsd", "dangling-symlink", "fifo-like-empty", "uppercase-extension",
-                            "every-sibling-a-symlink", "file-names-with-dots-and-non-ascii"):
+                            "every-sibling-a-symlink", "file-names-with-dots-and-non-ascii", "sibling-name-not-utf8"):
                 d = os.path.join(droot, f"g{k}-{variant}")
                 os.makedirs(d)
                 if variant == "file-names-with-dots-and-non-ascii":
@@ -326,6 +326,10 @@ def c11(tier):
                     os.symlink(os.path.join(d, "nowhere.xsd"), os.path.join(d, "zz_link.xsd"))
                 elif variant == "fifo-like-empty":
                     open(os.path.join(d, "zz_empty.xsd"), "w").close()
+                elif variant == "sibling-name-not-utf8":
+                    # a file name is bytes: one that is not text can not be meant by any schemaLocation
+                    with open(os.fsencode(d) + b"/zz_\xff\xfe.xsd", "wb") as fh:
+                        fh.write(SIB_VALID.encode())
                 elif variant == "uppercase-extension":
                     with open(os.path.join(d, "ZZ_OTHER.XSD"), "w") as fh:
                         fh.write("<broken")
@@ -422,7 +426,7 @@ def generated_sets(tag, n):
     return out
 
 
-def synth_wsdl(r, n_ops, headers=True, parts_attr=None, styles=None):
+def synth_wsdl(r, n_ops, headers=True, parts_attr=None, styles=None, n_groups=1):
     """A small document/literal WSDL with n_ops operations; message parts and header bindings vary.
     Only used as a *workload* for C12/C13/C15 (no correctness oracle is attached to its content)."""
     words = ["alpha", "bravo", "charlie", "delta", "echo", "foxtrot", "golf", "hotel", "india", "juliet", "kilo", "lima"]
@@ -475,29 +479,36 @@ def synth_wsdl(r, n_ops, headers=True, parts_attr=None, styles=None):
             oneway.add(o)
         else:
             x.append(f'<wsdl:message name="{O}Out"><wsdl:part name="parameters" element="tns:{O}Response"/></wsdl:message>\n')
-    x.append('<wsdl:portType name="SvcPort">\n')
-    for o in ops:
+    # n_groups port types with a binding and a port each, the operations dealt out among them
+    k = max(1, min(n_groups, len(ops)))
+    groups = [ops[i::k] for i in range(k)]
+    ports = []
+    for gi, gops in enumerate(groups):
+      sfx = "" if k == 1 else str(gi + 1)
+      ports.append(f'<wsdl:port name="SvcPort{sfx}" binding="tns:SvcBinding{sfx}"><soap:address location="http://127.0.0.1:9/svc{sfx}"/></wsdl:port>')
+      x.append(f'<wsdl:portType name="SvcPort{sfx}">\n')
+      for o in gops:
         O = o.capitalize()
         out = "" if o in oneway else f'<wsdl:output message="tns:{O}Out"/>'
         x.append(f'<wsdl:operation name="{O}"><wsdl:input message="tns:{O}In"/>{out}</wsdl:operation>\n')
-    x.append('</wsdl:portType>\n<wsdl:binding name="SvcBinding" type="tns:SvcPort">\n'
-             '<soap:binding style="document" transport="http://schemas.xmlsoap.org/soap/http"/>\n')
-    for o in ops:
-        O = o.capitalize()
-        use_parts = parts_attr if parts_attr is not None else (r.random() < 0.5 and not multi.get(o))
-        body = '<soap:body use="literal" parts="parameters"/>' if use_parts else '<soap:body use="literal"/>'
-        h = ""
-        if hdrs[o] >= 1:
-            h += f'<soap:header message="tns:{O}In" part="auth" use="literal"/>'
-        if hdrs[o] >= 2:
-            h += f'<soap:header message="tns:{O}In" part="trace" use="literal"/>'
-        out_parts = ' parts="parameters"' if r.random() < 0.4 else ""
-        out = "" if o in oneway else f'<wsdl:output><soap:body use="literal"{out_parts}/></wsdl:output>'
-        action = f'http://zv.test/actions/{O}' if r.random() < 0.7 else ""
-        x.append(f'<wsdl:operation name="{O}"><soap:operation soapAction="{action}"/><wsdl:input>{h}{body}</wsdl:input>{out}'
-                 f'</wsdl:operation>\n')
-    x.append('</wsdl:binding>\n<wsdl:service name="Svc"><wsdl:port name="SvcPort" binding="tns:SvcBinding">'
-             '<soap:address location="http://127.0.0.1:9/svc"/></wsdl:port></wsdl:service>\n</wsdl:definitions>\n')
+      x.append(f'</wsdl:portType>\n<wsdl:binding name="SvcBinding{sfx}" type="tns:SvcPort{sfx}">\n'
+               '<soap:binding style="document" transport="http://schemas.xmlsoap.org/soap/http"/>\n')
+      for o in gops:
+          O = o.capitalize()
+          use_parts = parts_attr if parts_attr is not None else (r.random() < 0.5 and not multi.get(o))
+          body = '<soap:body use="literal" parts="parameters"/>' if use_parts else '<soap:body use="literal"/>'
+          h = ""
+          if hdrs[o] >= 1:
+              h += f'<soap:header message="tns:{O}In" part="auth" use="literal"/>'
+          if hdrs[o] >= 2:
+              h += f'<soap:header message="tns:{O}In" part="trace" use="literal"/>'
+          out_parts = ' parts="parameters"' if r.random() < 0.4 else ""
+          out = "" if o in oneway else f'<wsdl:output><soap:body use="literal"{out_parts}/></wsdl:output>'
+          action = f'http://zv.test/actions/{O}' if r.random() < 0.7 else ""
+          x.append(f'<wsdl:operation name="{O}"><soap:operation soapAction="{action}"/><wsdl:input>{h}{body}</wsdl:input>{out}'
+                   f'</wsdl:operation>\n')
+      x.append('</wsdl:binding>\n')
+    x.append('<wsdl:service name="Svc">' + "".join(ports) + '</wsdl:service>\n</wsdl:definitions>\n')
     return "".join(x), {"ops": ops, "headers": hdrs, "oneway": sorted(oneway), "multi_part_bodies": multi}
 
 
@@ -545,8 +556,9 @@ def c12(tier):
         inputs.append((label, read_dir_files(d, start), start))
     n_synth = 14 if tier == "quick" else 80
     for k in range(n_synth):
-        text, meta = synth_wsdl(rng("C12", "synth", k), 2 + k % 7, headers=True)
-        inputs.append((f"synth-wsdl-{k}-ops{len(meta['ops'])}", {"svc.wsdl": text}, "svc.wsdl"))
+        groups = 1 + k % 3          # one, two or three port types with a binding and a port each
+        text, meta = synth_wsdl(rng("C12", "synth", k), 2 + k % 7, headers=True, n_groups=groups)
+        inputs.append((f"synth-wsdl-{k}-ops{len(meta['ops'])}-bindings{min(groups, len(meta['ops']))}", {"svc.wsdl": text}, "svc.wsdl"))
     inputs += generated_sets("C12", 10 if tier == "quick" else 60)
     # the same sets with siblings whose names differ from a used file's name only in case (other content): which of the two is
     # read must not depend on the order of registration or enumeration
@@ -768,7 +780,7 @@ def c15(tier):
     for label, d, start in repo_corpus():
         inputs.append((label, read_dir_files(d, start), start))
     for k in range(6 if tier == "quick" else 40):
-        text, meta = synth_wsdl(rng("C15", "synth", k), 1 + k % 5, headers=True)
+        text, meta = synth_wsdl(rng("C15", "synth", k), 1 + k % 5, headers=True, n_groups=1 + k % 2)
         inputs.append((f"synth-wsdl-{k}", {"svc.wsdl": text}, "svc.wsdl"))
     inputs += generated_sets("C15", 6 if tier == "quick" else 40)
     # tiny documents that isolate single emitters
@@ -810,6 +822,7 @@ def c15(tier):
     outcomes = {}
     samples = []
     short_total = {}
+    full_total = {}
     for (label, files, start), res in zip(inputs, results):
         if res.get("watchdog") or "died" in res:
             v.inconclusive = v.inconclusive or None
@@ -833,6 +846,11 @@ def c15(tier):
             short_total[s["pattern"] + ":" + s["verdict"]] = short_total.get(s["pattern"] + ":" + s["verdict"], 0) + 1
             if s["verdict"] != "identical":
                 v.violation(f"C15|short-write|pattern={s['pattern']}|effect={s['verdict']}", {"input": label, "detail": s})
+        for k, n in (res.get("full") or {}).items():
+            full_total[k] = full_total.get(k, 0) + n
+        for a in res.get("full_anomalies") or []:
+            where = "inside-the-last-write" if a["missing_bytes"] <= 64 else "earlier"
+            v.violation(f"C15|{a['verdict']}|sink=runs-full-then-accepts-nothing|where={where}", {"input": label, "detail": a})
         if len(samples) < 8:
             samples.append({"input": label, "write_calls": res["write_calls"], "bytes": res["bytes"],
                             "indices_injected": res["ks"], "all_indices": res["exhaustive"], "injections": res["injections"]})
@@ -844,10 +862,11 @@ def c15(tier):
                 "max_all/2 plus a seeded sample), x {fail once then healthy, fail forever} x error kinds {Other, WriteZero, BrokenPipe, "
                 "StorageFull, WouldBlock, TimedOut, PermissionDenied} (all kinds for small documents and k<64, one rotating kind otherwise); expected outcome: "
                 "Err(WriterError::Io), never Ok, never panic; plus 4 short-write patterns whose collected bytes must equal the "
-                "unconstrained output. evaluations = injected failures; distinct_nontrivial = distinct (document, written chunk) "
+                "unconstrained output; plus sinks with room for only a part of the text (up to each scanned write call, into the middle of it, "
+                "and every byte count of the last 64) that accept nothing afterwards (Ok(0), like &mut [u8]): expected Err(Io) as well. evaluations = injected failures; distinct_nontrivial = distinct (document, written chunk) "
                 "pairs at which a failure was injected (chunk identity ~ emitting call site)",
         "exhaustive": tier == "thorough" or None,
-        "documents_scanned": scanned, "documents_total": len(inputs), "outcomes": outcomes, "short_write_results": short_total,
+        "documents_scanned": scanned, "documents_total": len(inputs), "outcomes": outcomes, "short_write_results": short_total, "sinks_that_run_full": full_total,
         "samples": samples,
     }
     if cov["exhaustive"] is None:
@@ -964,7 +983,7 @@ def c13(tier):
         files = read_dir_files(d, start)
         corpus.append((label, files, start))
     for k in range(12 if tier == "quick" else 60):
-        text, _ = synth_wsdl(rng("C13", "synth", k), 1 + k % 6)
+        text, _ = synth_wsdl(rng("C13", "synth", k), 1 + k % 6, n_groups=1 + k % 3)
         corpus.append((f"synth-wsdl-{k}", {"svc.wsdl": text}, "svc.wsdl"))
     corpus += generated_sets("C13", 10 if tier == "quick" else 60)
     jobs = []
